@@ -34,7 +34,8 @@ ASSUMPTIONS = ["TSV round trips go through save_as_dataframes/load_schema on fil
 
 BASES = ["8.3.0", "8.2.0", "testlib_2.0.0", "score_2.0.0"]
 DESC_CHARS = ["plain words", "a = b", "it's \"quoted\"", "'''bold'''", "café über", "semi; colon: dash - ok",
-              "trailing dot.", "(parenthesised)", "50% of x/y", "a, b and c", "x\\y", "#hash *star* <tag>", "  padded  "]
+              "trailing dot.", "(parenthesised)", "50% of x/y", "a, b and c", "x\\y", "#hash *star* <tag>", "  padded  ",
+              "line\u2028separator", "paragraph\u2029separator", "no-break\u00a0space"]
 BOOL_ATTRS = ["extensionAllowed", "requireChild", "tagGroup", "topLevelTagGroup", "unique", "reserved"]
 
 
@@ -324,7 +325,7 @@ def apply_edits(case):
             ucs = gen_schema.unit_class_elems(root)
             uc = ucs[pos % len(ucs)]
             if lib:
-                continue
+                continue      # a library unit inside a standard unit class does not survive the unmerged TSV form
             u = ET.SubElement(uc, "unit")
             ET.SubElement(u, "name").text = f"zq{i}unit"
             ET.SubElement(u, "description").text = desc_for(op)
@@ -332,24 +333,23 @@ def apply_edits(case):
                 gen_schema.add_attr(u, "SIUnit")
             gen_schema.add_attr(u, "conversionFactor", ["2.5", "0.001", "10^3" if not gen83 else "1000.0"][k % 3])
         elif kind == "add_unit_class":
-            if lib:
-                continue
             sec = root.find("unitClassDefinitions")
             uc = ET.SubElement(sec, "unitClassDefinition")
             ET.SubElement(uc, "name").text = f"zq{i}Units"
             ET.SubElement(uc, "description").text = desc_for(op)
             gen_schema.add_attr(uc, "defaultUnits", f"zq{i}a")
+            mark_lib(uc)
             for nm in (f"zq{i}a", f"zq{i}b"):
                 u = ET.SubElement(uc, "unit")
                 ET.SubElement(u, "name").text = nm
                 gen_schema.add_attr(u, "conversionFactor", "1.0")
+                mark_lib(u)
         elif kind == "add_value_class":
-            if lib:
-                continue
             sec = root.find("valueClassDefinitions")
             v = ET.SubElement(sec, "valueClassDefinition")
             ET.SubElement(v, "name").text = f"zq{i}Class"
             ET.SubElement(v, "description").text = desc_for(op)
+            mark_lib(v)
             chars = ["letters", "digits", "blank", "period", "hyphen"]
             a = gen_schema.add_attr(v, "allowedCharacter", chars[k % 5])
             for c in chars[(k + 1) % 5:(k + 1) % 5 + k % 3]:
@@ -357,12 +357,11 @@ def apply_edits(case):
                     ET.SubElement(a, "value").text = c
                     feats.add("multi-valued-attribute")
         elif kind == "add_modifier":
-            if lib:
-                continue
             sec = root.find("unitModifierDefinitions")
             m = ET.SubElement(sec, "unitModifierDefinition")
             ET.SubElement(m, "name").text = f"zq{i}mod"
             ET.SubElement(m, "description").text = desc_for(op)
+            mark_lib(m)
             gen_schema.add_attr(m, "SIUnitModifier")
             gen_schema.add_attr(m, "conversionFactor", "100.0")
     return root, sorted(feats)
